@@ -38,6 +38,9 @@ void h_islegal(void) {
     bool epCap, castleMove;
     if (j < 2) ASSUME((moveClass == 1) == (iabs((to & 7) - (from & 7)) == 2));
     ASSUME(pseudoLegal(b, from, to, prom, epCap, castleMove));
+#ifdef EPONLY
+    ASSUME(epCap);                                        // en-passant captures only (5-man family: pins through the vanishing pawn)
+#endif
     bool gc; bool legal = legalMove(b, from, to, prom, gc);
     Position& pos = buildPos(b);
     Move m(Square(from), Square(to), prom);
@@ -58,6 +61,9 @@ void h_removeillegal(void) {
     bool epCap, castleMove;
     if (j < 2) ASSUME((moveClass == 1) == (iabs((to & 7) - (from & 7)) == 2));
     ASSUME(pseudoLegal(b, from, to, prom, epCap, castleMove));
+#ifdef EPONLY
+    ASSUME(epCap);
+#endif
     bool gc; bool legal = legalMove(b, from, to, prom, gc);
     Position& pos = buildPos(b);
     MoveList ml; ml.addMove(Square(from), Square(to), prom);
@@ -77,6 +83,9 @@ void h_givescheck(void) {
     ASSUME(to >= 0 && to < 64 && prom >= 0 && prom <= 12);
     if (j < 2) ASSUME((moveClass == 1) == (iabs((to & 7) - (from & 7)) == 2));
     bool gc; ASSUME(legalMove(b, from, to, prom, gc));
+#ifdef EPONLY
+    { bool e2, c2; pseudoLegal(b, from, to, prom, e2, c2); ASSUME(e2); }
+#endif
     Position& pos = buildPos(b);
     Move m(Square(from), Square(to), prom);
     bool g = MoveGen::givesCheck(pos, m);                          // real
